@@ -71,6 +71,7 @@ class Backend:
         self.api_calls = 0
         self._pending_pages: dict[str, list[dict]] = {}
         self.on_apply = None  # hook(update, op) called after each applied update (world reactions)
+        self.skew = 0.0  # world option "clock_skew": the service's clock is this many (virtual) seconds ahead of the function host's
         self.empty_page_every = 0  # pages option "empty_every": every k-th page fetch answers with no operations but a marker
         self.timer_lag = 0.0  # virtual seconds by which the service is late in acting on a due timer (world option "timer_lag")
         ex = {
@@ -109,8 +110,14 @@ class Backend:
         return copy.deepcopy(self.ops)
 
     # ------------------------------------------------------------------ timers
+    def svc_now(self) -> float:
+        return self.clock.now() + self.skew
+
+    def svc_dt(self):
+        return self.clock.dt(self.svc_now())
+
     def due_timers(self, now: float | None = None) -> list[tuple[float, str]]:
-        now = self.clock.now() if now is None else now
+        now = self.svc_now() if now is None else now
         out = []
         for oid in self.order:
             t = self.timer_of(oid)
@@ -140,7 +147,7 @@ class Backend:
         op = self.ops[oid]
         if op["Type"] == "WAIT" and op["Status"] == "STARTED":
             op["Status"] = "SUCCEEDED"
-            op["EndTimestamp"] = self.clock.dt()
+            op["EndTimestamp"] = self.svc_dt()
         elif op["Type"] == "STEP" and op["Status"] == "PENDING":
             op["Status"] = "READY"
         else:
@@ -169,7 +176,7 @@ class Backend:
         if not op or op["Status"] != "STARTED" or op["Type"] not in ("CALLBACK", "CHAINED_INVOKE"):
             return False
         op["Status"] = status
-        op["EndTimestamp"] = self.clock.dt()
+        op["EndTimestamp"] = self.svc_dt()
         key = "CallbackDetails" if op["Type"] == "CALLBACK" else "ChainedInvokeDetails"
         det = op.setdefault(key, {})
         if result is not None:
@@ -255,7 +262,7 @@ class Backend:
 
     def apply_update(self, u: dict) -> None:  # noqa: C901, PLR0912, PLR0915
         oid, typ, act = u.get("Id"), u.get("Type"), u.get("Action")
-        now = self.clock.dt()
+        now = self.svc_dt()
         self.seq += 1
         op = self.ops.get(oid)
         before = op["Status"] if op else None
